@@ -23,6 +23,7 @@ Record oreq := {
 Record ostep := {
   os_reqs : list oreq;
   os_reply : option (bool * N);   (* RunIDValid, state: 0 unknown 1 connected 2 disconnected 3 restart 4 invalid license *)
+  os_reply_run : Z;               (* run id in the connect reply handed over with a "connected" answer, else 0 *)
   os_exited : bool;
   os_hung : bool
 }.
@@ -51,6 +52,7 @@ Definition project_req (q : request) : oreq :=
 Definition project_step (o : list out) : ostep :=
   {| os_reqs := concat (map (fun x => match x with OutReq q => [project_req q] | _ => [] end) o);
      os_reply := hd_error (concat (map (fun x => match x with OutAppReply v st => [(v, state_code st)] | _ => [] end) o));
+     os_reply_run := hd 0 (concat (map (fun x => match x with OutConnectedRun r => [Z.of_N r] | _ => [] end) o));
      os_exited := existsb (fun x => match x with OutExited => true | _ => false end) o;
      os_hung := false |}.
 
@@ -97,7 +99,7 @@ Definition no_usage (l : list oreq) : list oreq := filter (fun q => negb (o_kind
 Definition ostep_eqb (a b : ostep) : bool :=
   let ra := if os_exited a || os_exited b then no_usage (os_reqs a) else os_reqs a in
   let rb := if os_exited a || os_exited b then no_usage (os_reqs b) else os_reqs b in
-  reqs_eqb (canon_reqs ra) (canon_reqs rb) && reply_eqb (os_reply a) (os_reply b) &&
+  reqs_eqb (canon_reqs ra) (canon_reqs rb) && reply_eqb (os_reply a) (os_reply b) && (os_reply_run a =? os_reply_run b) &&
   Bool.eqb (os_exited a) (os_exited b) && Bool.eqb (os_hung a) (os_hung b).
 
 (* index of the first step on which model and observation differ *)
@@ -388,7 +390,11 @@ Definition m_step (i : nat) (m : mst) (o : op) (obs : ostep) : mst :=
               let term := match find_app k (m_apps m1) with Some a => ma_terminal a | None => 0%N end in
               let m2 := viol_if ((term =? 1)%N && negb (st =? 2)%N) m1 V_TERMINAL_REPLY i in
               let m3 := viol_if ((term =? 2)%N && negb (st =? 4)%N) m2 V_TERMINAL_REPLY i in
-              let m4 := viol_if ((st =? 1)%N && negb (owner_has_held_run m3 k)) m3 V_CONNECTED_UNSOUND i in
+              let m4a := viol_if ((st =? 1)%N && negb (owner_has_held_run m3 k)) m3 V_CONNECTED_UNSOUND i in
+              (* the connect reply handed to the agent names a run the daemon holds for THIS application *)
+              let m4 := viol_if ((st =? 1)%N &&
+                                 negb (existsb (fun r => mr_held r && (mr_owner r =? k) && (mr_run r =? os_reply_run obs)) (m_runs m4a)))
+                                m4a V_CONNECTED_UNSOUND i in
               (* an application in a retryable failure state whose back-off has expired is reconnected *)
               let need := match find_app k (m_apps m4) with
                           | Some a => ma_failed_connect a && (ma_terminal a =? 0)%N && backoff_ok m4 k
